@@ -85,6 +85,51 @@ func try(n int, logCache int, mutate func(i int, c *storage.Config)) (*Cluster, 
 	return c, nil
 }
 
+// SingleConfig returns the configuration of a one-node cluster on fresh in-memory file systems.
+func SingleConfig(nodeName string) storage.Config {
+	raft := nh.FreeAddr()
+	gossip := nh.FreeAddr()
+	return storage.Config{
+		NodeID:         1,
+		InitialMembers: map[uint64]string{1: raft},
+		WALDir:         "/wal",
+		NodeHostDir:    "/nh",
+		RTTMillisecond: 2,
+		RaftAddress:    raft,
+		Gossip:         storage.GossipConfig{BindAddress: gossip, AdvertiseAddress: gossip, InitialMembers: []string{gossip}, ClusterName: "verif-" + nodeName, NodeName: nodeName},
+		Table: storage.TableConfig{FS: pvfs.NewMem(), DataDir: "/tables", TableCacheSize: 256, BlockCacheSize: 1 << 20,
+			ElectionRTT: 10, HeartbeatRTT: 1, SnapshotEntries: 100000, CompactionOverhead: 5000, MaxInMemLogSize: 6 * 1024 * 1024},
+		Meta: storage.MetaConfig{ElectionRTT: 10, HeartbeatRTT: 1, SnapshotEntries: 100000, CompactionOverhead: 5000, MaxInMemLogSize: 1024 * 1024},
+		FS:   vfs.NewMem(),
+		Log:  zap.NewNop().Sugar(),
+	}
+}
+
+// FreshGossip gives cfg a new gossip port (Engine.Close does not release the old one).
+func FreshGossip(cfg *storage.Config) {
+	g := nh.FreeAddr()
+	cfg.Gossip.BindAddress, cfg.Gossip.AdvertiseAddress, cfg.Gossip.InitialMembers = g, g, []string{g}
+}
+
+// Single starts one engine from a complete configuration (used for restarts on the same file systems).
+func Single(cfg storage.Config) (*storage.Engine, error) {
+	e, err := storage.New(cfg)
+	if err != nil {
+		return nil, err
+	}
+	if err := e.Start(); err != nil {
+		_ = e.Close()
+		return nil, err
+	}
+	ctx, cancel := context.WithTimeout(context.Background(), 30*time.Second)
+	defer cancel()
+	if err := e.WaitUntilReady(ctx); err != nil {
+		_ = e.Close()
+		return nil, err
+	}
+	return e, nil
+}
+
 // CreateTable creates the table through node 0 and starts its shard on every node (reconcile pass).
 func (c *Cluster) CreateTable(name string) error {
 	deadline := time.Now().Add(30 * time.Second)
